@@ -20,13 +20,13 @@ C={
         "Every character string / token sequence / extreme-number slice up to the bounds is compiled, cloned, searched on 8 documents and dropped; 20 nesting families x a depth ladder run one process each with an 8 MiB stack. Deep-nesting stack exhaustion is a known finding keyed by family and depth.",
         "stack budget 8 MiB for the family ladder; depth thresholds carry one ladder step of slack downwards, never <= 512"),
  "C06":("exhaustive decision table (function x arity x argument type classes) against the reference signature table","5 C06",
-        "All 28 names x argument counts 0..declared+2 x 10 type classes per position plus by-function key-type vectors; error class, or value and declared result type, must match R-fn.",
+        "All 28 names x argument counts 0..declared+2 x 12 type classes per position (as literals, as document fields so that repeated fields are the same node, and as the current node), each cell also behind a null left-hand side and as a hand-built Expression::new value with a foreign label, plus by-function key-type vectors and long typed arrays; error class, or value and declared result type, must match R-fn.",
         "one or two representatives per type class"),
  "C07":("exhaustive enumeration of (length, start, stop, step) over window + i32 extremes against Python's slice rule in i128, cross-validated with python3","5 C07",
-        "Every triple over the window +-(n+2) plus the 32-bit extremes and every omission pattern, through the string interface and Variable::slice; all indexes; non-array subjects.",
+        "Every triple over the window +-(n+2) plus the 32-bit extremes and every omission pattern, through the string interface, Variable::slice and the bare hand-built Ast::Slice node; all indexes; non-array subjects; a length ladder of long arrays.",
         "regime-coverage argument for the unbounded range (DESIGN C07)"),
  "C08":("bounded exhaustive enumeration of JSON texts (numeral families, strings in three spellings, documents, duplicate keys) round-tripped through every conversion path","5 C08",
-        "Each text goes from_json -> search('@') -> print -> re-parse and through Serialize / TryFrom / Deserialize / to_jmespath; integers exact with integer spelling, <=15 digit decimals bit-exact, others within 2 ulp, strings code point exact.",
+        "Each text goes from_json -> search('@') -> print -> re-parse and through Serialize / TryFrom / Deserialize / to_jmespath; integers exact with integer spelling, <=15 digit decimals bit-exact, others within 2 ulp, strings code point exact; a size ladder of objects (several key orders, one repeated key at several positions: last wins), arrays and strings.",
         "serde_json::from_str::<Value> and str::parse::<f64> as independent readers"),
  "C09":("exhaustive enumeration of delimiter contents and of string values spelled by a reference speller, decoded by the reference lexer","5 C09",
         "Every content up to the bound between each delimiter pair (accept/reject and value), every string value spelled as raw string / JSON literal / quoted identifier in three escape styles, pool documents as literals, short unquoted identifiers; identifiers searched against marker objects with decoys.",
@@ -41,10 +41,10 @@ C={
         "Every failing string up to the bound over an alphabet with newline, 2/4-byte characters: Parse class, expression text, offset on a boundary, line/column recomputed, Display re-rendered; every failing signature-table cell in 13 contexts: runtime class and offset at the failing call's '('.",
         "R-eval tracks the failing call; non-finite results are a known finding"),
  "C13":("explicit-state BFS (stateright) over operation histories; state = history; invariant replays on fresh real objects (differential vs empty history)","5 C13",
-        "All histories of compile/clone/search/drop over 7 expressions x 4 shared documents up to the depth bound: last observation equals the fresh-history observation, shared inputs unchanged; each operation also as first operation of a fresh process.",
+        "All histories of compile/clone/search/drop over 15 expressions x 4 shared documents up to the depth bound: last observation equals the fresh-history observation, shared inputs unchanged; each operation also as first operation of a fresh process.",
         "observations are full Debug renderings"),
  "C15":("explicit-state BFS (stateright) over registry histories against a reference map; exhaustive call-protocol enumeration with recording functions","5 C15",
-        "All register/deregister/register_builtins histories over 3 names up to the depth bound answer get_function and 8 probe calls like the reference map; recording custom functions see evaluated arguments in source order; CustomFunction closures run iff the signature is satisfied.",
+        "All register/deregister/register_builtins histories over 3 names up to the depth bound answer get_function and 8 probe calls like the reference map; recording custom functions see evaluated arguments in source order; CustomFunction closures (16 parameter types x fixed / variadic / string+variadic shapes x argument vectors up to length 3-4) run iff the signature is satisfied.",
         "R-reg = BTreeMap"),
 }
 claimed=sys.argv[1:] if len(sys.argv)>1 else sorted(C)
